@@ -7,6 +7,7 @@ import Rox.Lemmas.DocSpans
 import Rox.Lemmas.RangeOrd
 import Rox.Lemmas.Shape
 import Rox.Lemmas.RangeNest
+import Rox.Lemmas.Shift
 import Rox.Props.C01
 
 namespace Rox.Props.C13
@@ -103,5 +104,18 @@ theorem parsed_ranges_nested (txt : Bytes) (hv : ValidUtf8 txt) (opt : Opt)
     (∀ i j, i < d.nodes.size → prevSib d.nodes i = some j →
       (Rox.Lemmas.rangeOf d.nodes j).2 ≤ (Rox.Lemmas.rangeOf d.nodes i).1) :=
   Rox.Lemmas.parse_ranges_nested Generated.tables C01.generated_tables_ok txt hv opt hdtd hp d h
+
+/-- **Shift equivariance** (every accepted input that does not begin with a BOM or an XML
+declaration, every `k`, every option value): prefixing the document with `k` spaces of prolog white
+space shifts every node range, every attribute range and the offset of every borrowed string by
+exactly `k` (the root's range end moves by `k`; the static `xml` namespace entry stays), and changes
+nothing else — same nodes, links, names, values, namespaces. -/
+theorem shift_equivariance (txt : Bytes) (opt : Opt) (d : Doc) (k : Nat)
+    (hbom : Stream.startsWith ⟨0, txt⟩ Lit.bom = false)
+    (hdecl : Stream.startsWith ⟨0, txt⟩ Lit.xmlDecl = false)
+    (h : parse Generated.tables txt opt = .ok d) :
+    parse Generated.tables (List.replicate k 32 ++ txt) opt =
+      .ok (Rox.Lemmas.shiftDoc k opt.positions d) :=
+  Rox.Lemmas.parse_shift Generated.tables (by decide) txt opt d k hbom hdecl h
 
 end Rox.Props.C13
